@@ -110,6 +110,11 @@ func vh_AE() {
 		vAssert(vAnd(len(chRep) == 0, len(chRO) == 0), "C03.pending-untouched-while-leader")
 	}
 
+	// C15.repair (progress): a current-term request whose prev entry matches is accepted
+	if req.Term >= pre.term && req.PrevLogIndex >= pre.firstIndex && req.PrevLogIndex <= pre.lastIndex {
+		ppo := vConcretize(req.PrevLogIndex-pre.firstIndex, pre.logLen)
+		vAssert(vImplies(pre.terms[ppo] == req.PrevLogTerm, resp.Success), "C15.matching-request-is-accepted")
+	}
 	// ---- C06: the log only changes toward the sender's log
 	if !resp.Success {
 		vCover("rejected")
